@@ -72,8 +72,9 @@ DERIVE_TIER_RANDOM = 300
 # extra Coq targets a property needs besides Properties/<id>.vo and Corr/Run<id>.vo
 # Corr/RunC17.v: case type of the C17 run (pair + retained artefacts)
 # Corr/CheckerControls.v: positive / negative controls of the run-time checkers sizedb, attr_sort_key
-EXTRA_TARGETS = {"C17": ["Corr/RunC17.vo"], "C14": ["Proofs/ConformsCase.vo"], "C05": ["Corr/RunC05Emit.vo"], "C02": ["Corr/CheckerControls.vo"], "C06": ["Corr/CheckerControls.vo"],
-                 "C09": ["Corr/CheckerControls.vo"]}
+# Corr/RunC05.v, Corr/RunC05Emit.v: case type and checkers of the C05 run (imported by its shards, not by Corr/CheckTG.v)
+EXTRA_TARGETS = {"C17": ["Corr/RunC17.vo"], "C14": ["Proofs/ConformsCase.vo"], "C05": ["Corr/RunC05.vo", "Corr/RunC05Emit.vo"],
+                 "C02": ["Corr/CheckerControls.vo"], "C06": ["Corr/CheckerControls.vo"], "C09": ["Corr/CheckerControls.vo"]}
 # properties sharing the type-generator case family use Corr/CheckTG.v
 TG_PROPS = {"C01", "C02", "C05", "C06", "C07", "C08", "C09", "C10", "C17", "C18"}
 
